@@ -261,6 +261,21 @@ theorem C10_guard_constants :
     tmStops = [("ampld.lp.f", "VARY", "IF (NMAX.GT.NPN1) STOP"), ("lpd.f", "XERBLA", "STOP")] := by
   decide
 
+/-- the Bessel recursions of RJB / CJB run downward from index `L = NMAX + NNMAX` in work arrays of fixed length; the
+guard VARY applies before calling them (regenerated from the source) keeps every such index inside the arrays, for every
+expansion order and every number of extra terms: no particle, however large or dense, makes them write out of bounds
+(the defect repaired in /repo: a cylinder d = 4.1, h = 66.4, n = 2.87 + 0.84i ended the interpreter with a segmentation
+fault) -/
+theorem C10_bessel_work_in_bounds (nmax nn1 nn2 : Nat)
+    (h : ¬ (tmBesselGuard.1 < nmax + nn1 ∨ tmBesselGuard.2 < nmax + nn2)) :
+    0 < tmBesselGuard.1 ∧ nmax + nn1 ≤ tmBesselWork.1 ∧ nmax + nn2 ≤ tmBesselWork.2.1 ∧ nmax + nn2 ≤ tmBesselWork.2.2 := by
+  have hg : tmBesselGuard = (800, 1200) := by decide
+  have hw : tmBesselWork = (800, 1200, 1200) := by decide
+  rw [hg] at h
+  rw [hg, hw]
+  simp only at h ⊢
+  omega
+
 /-- non-vacuity: a concrete out-of-range rotation is mapped into range -/
 example : (eulerReduce (-(2:ℝ) / 5) 7).2 ≤ 180 := (C10_euler_in_range _ _).2.2.2
 
